@@ -521,8 +521,10 @@ impl Harness for H {
          size/alignment (Rust types and custom type details), fixed vs slice, QoS limits, pre-filled histories. \
          (b) one configuration per `impl IntoCInt` of the binding: all values of the Rust enum (exhaustive matches, nested enums \
          expanded) are converted, each in a sacrificial process: total, never IOX2_OK, a discriminant of the C enum, one-to-one, and \
-         named by an exported iox2_*_string function with a printable name no other code of the enum has. A distinct state is a \
-         distinct digest of the observation history of the reference world."
+         named by an exported iox2_*_string function with a printable name no other code of the enum has. \
+         (c) names and paths: all pairs of calls of the C entry points that validate semantic strings (config prefix, config root path, \
+         service name, node name) with plain/other/with-slash/empty/too-long strings against the Rust constructors (code and value \
+         afterwards). A distinct state is a distinct digest of the observation history of the reference world."
             .into()
     }
 
@@ -855,7 +857,7 @@ fn configs(tier: Tier) -> Vec<(Cfg, Plan)> {
     // exploration runs on LOCAL services, IPC services get every configuration class one level
     // shallower. Both arms of every `match service_type` of the binding are exercised.
     let (d_ipc, d_loc, d_loc_deep) = if quick { (3usize, 4usize, 5usize) } else { (3, 5, 6) };
-    let (s_ipc, s_loc, s_deep) = if quick { (8u32, 4u32, 8u32) } else { (8, 8, 16) };
+    let (s_ipc, s_loc, s_deep) = if quick { (16u32, 4u32, 8u32) } else { (8, 8, 16) };
     // level 0: one step shallower (LOCAL), 1: normal, 2: one step deeper
     let dsp = |svc: SvcType, level: u8| -> (usize, u32) {
         match (svc, level) {
@@ -943,7 +945,7 @@ fn configs(tier: Tier) -> Vec<(Cfg, Plan)> {
         rr(Mix::CC, SvcType::Ipc, (8, 8), false, 1, 1, false, 0, 1);
         rr(Mix::RC, SvcType::Ipc, (16, 16), false, 2, 1, false, 2, 1);
         rr(Mix::CC, SvcType::Local, (12, 4), true, 2, 1, true, 2, 1);
-        rr(Mix::CC, SvcType::Local, (8, 8), false, 1, 1, true, 1, 1);
+        rr(Mix::CC, SvcType::Local, (8, 8), false, 1, 1, true, 1, 0);
         rr(Mix::CR, SvcType::Local, (1, 1), true, 1, 2, true, 3, 0);
         rr(Mix::CR, SvcType::Local, (12, 4), false, 1, 1, false, 2, 0);
         rr(Mix::RC, SvcType::Local, (1, 1), true, 1, 1, false, 3, 0);
